@@ -26,6 +26,13 @@
     swap_source                         std::mem::swap(top.source_ref_mut(), &mut second): the top
                                         (a TensorRename / TensorReverse) now looks at the second
                                         view, the old source takes its place     → ok shape=<shape>
+    tmap                                TensorMap::from(top, f) (crate-private; reached through
+                                        `Display for RecordTensor`)              → ok shape=<shape>
+    display                             every element in row-major order, as `Display` of a
+                                        TensorView / RecordTensor prints them    → shape=<shape> cells=<leaf:offset …>
+    sources                             source() / source_ref() / sources() / sources_ref() of the
+                                        adaptor on top: every inner view         → shape=<shape> cells=<…> | shape=…
+    length_of <name>                    TensorView::length_of / last_index_of    → length=<n>|none last=<n>|none
     shape                               view_shape of the top                    → shape=<shape>
     get <idx>                           get_reference / _mut / _unchecked(_mut)  → some(<leaf>:<offset>) | none
     set <idx>                           write a sentinel, scan the leaves        → changed=<leaf>:<offset> | none
@@ -128,6 +135,13 @@ def consecutive : List Cell → Option (Nat × Nat × Nat)
   | (l, o) :: rest =>
     if (rest.zipIdx.all fun (c, k) => c.1 == l && c.2 == o + k + 1) then some (l, o, rest.length + 1)
     else none
+
+/-- the shape of a view and its first `limit` elements in row-major order (spec and model) -/
+def describe (v : V) (limit : Nat) : String :=
+  let idxs := (allIndexes (lens v.shape)).take limit
+  let spec := " ".intercalate (idxs.map fun idx => showCellOpt (v.specGet idx))
+  let model := " ".intercalate (idxs.map fun idx => showOutcome showCellOpt (v.get idx))
+  s!"shape={showShape v.shape} cells=" ++ (if spec = model then spec else s!"{spec} MODEL-SPEC-DISAGREE {model}")
 
 def memorder (v : V) : String :=
   let spec : String :=
@@ -265,6 +279,24 @@ def step (s : State) (toks : List String) : State × String :=
           ({ s with stack := v :: src :: rest }, okShape v)
       | none => (s, "skip")
     | _ => (s, "skip")
+  | "tmap" :: _ => applyTop s fun v => some (some (.tmap v))
+  | "display" :: _ =>
+    match s.stack with
+    | v :: _ => if prod (lens v.shape) > 64 then (s, "skip") else (s, describe v 64)
+    | [] => (s, "skip")
+  | "sources" :: _ =>
+    match s.stack with
+    | v :: _ =>
+      match v.sources with
+      | [] => (s, "skip")
+      | ss => (s, " | ".intercalate (ss.map fun x => describe x 16))
+    | [] => (s, "skip")
+  | "length_of" :: name :: _ =>
+    match s.stack with
+    | v :: _ =>
+      let showN : Option Nat → String := fun o => match o with | some n => toString n | none => "none"
+      (s, s!"length={showN (View.lengthOf v.shape name)} last={showN (View.lastIndexOf v.shape name)}")
+    | [] => (s, "skip")
   | "shape" :: _ =>
     match s.stack with
     | v :: _ => (s, s!"shape={showShape v.shape}")
